@@ -482,7 +482,52 @@ def ret_comp(xs: list[fp.Real]) -> list[list[fp.Real]]:
     return [[x, x * 2] for x in xs]
 
 
+
+# ---- derivations by user rewrite rules (expression rewrites keep the statement: no statement edit) ----
+
+@fp.pattern
+def _fma_l(a, b, c):
+    a * b + c
+
+
+@fp.pattern
+def _fma_r(a, b, c):
+    fp.fma(a, b, c)
+
+
+@fp.pattern
+def _dbl_l(a):
+    a + a
+
+
+@fp.pattern
+def _dbl_r(a):
+    2 * a
+
+
+def rewrite_rule(name: str):
+    from fpy2.rewrite import Rewrite
+    lhs, rhs = {'rw_fma': (_fma_l, _fma_r), 'rw_dbl': (_dbl_l, _dbl_r)}[name]
+    return Rewrite(lhs, rhs, name=name)
+
+
+@fp.fpy
+def muladd(a: fp.Real, b: fp.Real, c: fp.Real) -> fp.Real:
+    # under the caller's context: fused and unfused differ in the last digit for most operands
+    return a * b + c
+
+
+@fp.fpy
+def muladd16(a: fp.Real, b: fp.Real, c: fp.Real) -> tuple[fp.Real, fp.Real]:
+    with fp.FP16:
+        t = a * b + c
+        u = (t + t) * b + a
+    return (t, u)
+
+
 SIG = {
+    'muladd': ['num', 'num', 'num'],
+    'muladd16': ['num', 'num', 'num'],
     'ret_literal': ['num'],
     'ret_nested_literal': ['num'],
     'ret_table': ['num'],
@@ -545,7 +590,7 @@ AMBIENT = ['extremes', 'use_table', 'use_pass_list', 'pinned32', 'pinned_rtz16',
 PINNED = ['pinned32', 'pinned_rtz16', 'calls_pinned']
 
 # functions with operations outside any `with` of their own: what a stale or leaked ambient context would change
-BARE = ['helper_noctx', 'extremes', 'tenth', 'boosted', 'calls', 'early', 'nested', 'uses_closure']
+BARE = ['muladd', 'helper_noctx', 'extremes', 'tenth', 'boosted', 'calls', 'early', 'nested', 'uses_closure']
 # programs whose failure happens below a call they make (in a callee, in a primitive)
 FAIL_BELOW = ['calls_failing', 'via_picky']
 
@@ -553,7 +598,10 @@ FAIL_BELOW = ['calls_failing', 'via_picky']
 RETURNS_LISTS = ['ret_literal', 'ret_nested_literal', 'ret_table', 'ret_callee', 'whole_slice', 'ret_inner', 'ret_both',
                  'ret_readonly', 'ret_comp', 'ret_param', 'ret_pair', 'ident_pair', 'slices', 'nested_lists']
 
-SPECIAL = ['pinned32', 'narrow', 'extremes', 'tenth', 'use_table', 'uses_closure', 'deep', 'ret_param', 'via_prim', 'calls_failing',
+# everything that takes or returns containers
+BOUNDARY = RETURNS_LISTS + ['deep', 'mut_list', 'share_call', 'dot', 'sum_enum', 'use_pass_list', 'poly', 'trans']
+
+SPECIAL = ['muladd', 'muladd16', 'pinned32', 'narrow', 'extremes', 'tenth', 'use_table', 'uses_closure', 'deep', 'ret_param', 'via_prim', 'calls_failing',
            'calls', 'pinned_rtz16', 'narrow_neg', 'tenth16', 'use_pass_list', 'shadowing', 'ident_pair', 'ret_pair',
            'via_picky', 'asserting', 'cap_num', 'calls_pinned', 'narrow_all', 'tenth32', 'mut_list', 'nested_lists',
            'share_call', 'indexer', 'exact_or_fail', 'trans', 'directed', 'ident', 'slices',
@@ -565,6 +613,8 @@ FAILING = ['asserting', 'indexer', 'exact_or_fail', 'calls_failing', 'via_picky'
 
 # strategies that may be applied to each function (name -> list of (strategy, kwargs))
 DERIVABLE = {
+    'muladd': [('rw_fma', {}), ('rw_fma', {}), ('simplify', {})],
+    'muladd16': [('rw_fma', {}), ('rw_dbl', {}), ('rw_fma', {})],
     'uses_closure': [('inline', {}), ('simplify', {})],
     'shadowing': [('inline', {}), ('close', {}), ('simplify', {})],
     'alt_loop': [('unroll_while', {'times': 1}), ('unroll_while', {'times': 2}), ('simplify', {})],
